@@ -75,8 +75,8 @@ PLAN = {
  'C17_r2m2': [('c17', 'comments')],
  # round 3
  'C01_r3m1': [('c01', 'core-JACCARD-1x1-k5|core-JACCARD-1x2'), ('c13', 'transpose-core-JACCARD')],
- 'C01_r3m2': [('c01', 'core-OC'), ('c02', 'core-OC')],
- 'C02_r3m1': [('c02', 'core-JACCARD|api-jaccard')],
+ 'C01_r3m2': [('c02', 'verify-step')],
+ 'C02_r3m1': [('c02', 'verify-step')],
  'C02_r3m2': [('c02', 'api-overlap_coefficient|core-OC'), ('c09', 'api-overlap_coefficient|core-OC')],
  'C03_r3m1': [('c03', 'two-letters|join-1x1-short')],
  'C03_r3m2': [('c03', 'join-1x1-short|two-letters')],
@@ -86,20 +86,20 @@ PLAN = {
  'C05_r3m2': [('c05', 'uncached-ops|cached-missing|split-projection')],
  'C06_r3m1': [('c06', 'candset-')],
  'C06_r3m2': [('c06', 'overlap-tables')],
- 'C07_r3m1': [('c12', 'histories|ed-'), ('c07', 'ed-pipeline')],
- 'C07_r3m2': [('c07', 'overlap_join')],
+ 'C07_r3m1': [('c12', 'ed-history')],
+ 'C07_r3m2': [('c07', 'overlap_join'), ('c05', 'uncached-ops')],
  'C08_r3m1': [('c08', 'matcher-missing'), ('c05', 'uncached-ops|cached-missing')],
  'C08_r3m2': [('c03', 'join-1x2-flags|join-2x1'), ('c08', 'jaccard')],
  'C09_r3m1': [('c09', 'api-SuffixFilter')],
  'C09_r3m2': [('c09', 'api-overlap_coefficient'), ('c11', 'api-overlap_coefficient')],
- 'C10_r3m1': [('c12', 'histories|ed-'), ('c10', 'ed-join')],
+ 'C10_r3m1': [('c12', 'ed-history')],
  'C10_r3m2': [('c10', 'njobs-jaccard')],
  'C11_r3m1': [('c11', 'api-jaccard_join|api-SizeFilter')],
- 'C11_r3m2': [('c11', 'api-jaccard_join|api-overlap_join')],
- 'C12_r3m1': [('c12', 'histories|ed-')],
+ 'C11_r3m2': [('c11', 'prefix-collision')],
+ 'C12_r3m1': [('c12', 'ed-history')],
  'C12_r3m2': [('c12', 'ed-tokenizer-restored')],
  'C13_r3m1': [('c13', 'transpose-core|1x1-k4'), ('c01', 'core-JACCARD-1x1-k5')],
- 'C13_r3m2': [('c13', '^ed-'), ('c03', 'two-letters')],
+ 'C13_r3m2': [('c13', 'ed-refine-two-letters'), ('c03', 'two-letters')],
  'C14_r3m1': [('c14', 'tables-SizeFilter')],
  'C14_r3m2': [('c14', 'pair-free-PrefixFilter|pair-PrefixFilter')],
  'C15_r3m1': [('c15', 'jaccard_join|filter_tables:SizeFilter|apply_matcher')],
